@@ -124,7 +124,7 @@ Record nrel (p : pst) (t : tok) (p' : pst) : Prop := {
   nr_cur : t = cur_tok p';
   nr_lpz : lpz p' = (lpz p + 1)%Z;
   nr_mu_nz : t_typ t <> 0 -> mu p = S (mu p');
-  nr_mu : mu p' = mu p \/ mu p = S (mu p');
+  nr_mu : (mu p' <= mu p <= S (mu p'))%nat;
   nr_mu_z : mu p' = mu p -> t_typ t = 0;
   nr_bk_inv : pinv (p_backup p');
   nr_bk_mu : mu (p_backup p') = mu p;
